@@ -60,6 +60,14 @@ def check(run, project):
     from ..report import RuleView
     from . import c15
     c15.f1_f2(RuleView(run, "F2", "L9"), project)
+    # L11 (= C11-A1): `example` prints what the events rebuilt from the decoded object say; the members a message may lack
+    # altogether (no sessions, failure) must be exactly those the object-to-events conversion leaves out, else a printed
+    # example carries a field its bytes do not have
+    from . import c11
+    try:
+        c11.check(RuleView(run, "A1", "L11"), project)
+    except AnalysisError as ex:
+        run.info(f"L11: the object conversion could not be followed ({ex}); not judged here (C11 reports it)")
     from .shared import unbound_locals
     unbound_locals(run, project, "L6", (MAIN, "tpmstream.common.canonical"), what="a traceback instead of the command's output")
     from .shared import undefined_names
